@@ -137,6 +137,57 @@ fn oracle() -> Oracle {
                 out.push(Finding::new("status-vs-sequential-order", "order:status-differs-from-sequential-application", format!("applying the queued commands in the order the worker dequeued them, {} must end with {} but its acknowledgement says {:?}", c.short(), status_short(&want), st.map(|s| status_short(&s)))));
             }
         }
+        // the keys the sequential application leaves behind are readable (not merely stored)
+        for (k, v) in model.iter() {
+            let (r, spec) = model_read(&run.obs_end, *k);
+            if spec && r != Some(*v) {
+                out.push(Finding::new("final-state-unreadable", "order:final-key-not-readable", format!("applying the commands once each, in order, leaves key {} = {} but it reads {:?} (entry {:?})", k, v, r, run.obs_end.entry(*k))));
+            }
+        }
+        // explicitly requested weights: per key, the last write (in application order) that named a weight decides what is charged
+        {
+            let mut wmodel: BTreeMap<K, i64> = BTreeMap::new();
+            for e in run.obs_init.store.iter() {
+                if let Some(w) = run.obs_init.weight_of_id(e.2) {
+                    wmodel.insert(e.0, w);
+                }
+            }
+            let mut present: std::collections::BTreeSet<K> = run.obs_init.store.iter().map(|e| e.0).collect();
+            for (_, ci) in &steps {
+                let c = &run.calls[*ci];
+                let k = c.op.key().unwrap();
+                let sent = match &c.res {
+                    Res::Write { sent, .. } => sent.clone(),
+                    _ => None,
+                };
+                match (&c.op, sent.as_deref()) {
+                    (Op::Put { w: Some(w), .. }, Some(_)) | (Op::Upsert { w: Some(w), .. }, Some("Put")) | (Op::Upsert { w: Some(w), .. }, Some("PutWithTTL")) => {
+                        if !present.contains(&k) {
+                            present.insert(k);
+                            wmodel.insert(k, *w);
+                        }
+                    }
+                    (Op::Delete { .. }, Some(_)) => {
+                        present.remove(&k);
+                        wmodel.remove(&k);
+                    }
+                    (Op::Upsert { w: Some(w), .. }, _) => {
+                        // an upsert of a stored key with an explicit weight: that weight is charged once acknowledged
+                        if present.contains(&k) {
+                            wmodel.insert(k, *w);
+                        }
+                    }
+                    _ => {}
+                }
+            }
+            for (k, w) in wmodel.iter() {
+                if let Some(e) = run.obs_end.entry(*k) {
+                    if run.obs_end.weight_of_id(e.2) != Some(*w) {
+                        out.push(Finding::new("final-weight", "order:final-weight-differs-from-sequential-application", format!("applying the weight requests once each, in order, charges key {} with {} but {:?} is charged", k, w, run.obs_end.weight_of_id(e.2))));
+                    }
+                }
+            }
+        }
         let got: BTreeMap<K, V> = run.obs_end.store.iter().map(|e| (e.0, e.1)).collect();
         if got != model {
             out.push(Finding::new("final-state", "order:final-state-differs-from-sequential-application", format!("the cache ends with {:?} but applying the commands once each, in order, gives {:?}", got, model)));
@@ -182,6 +233,8 @@ fn programs() -> Vec<Program> {
     v.push(mk("bursts: put a;delete a || put a;delete a /queue2", 2, vec![], vec![vec![put(1, 2), del(1)], vec![put(1, 3), del(1)]]));
     v.push(mk("real-time: put a;raise || wait;delete a /queue1", 1, vec![], vec![vec![put(1, 2), Op::RaiseFlag { flag: 0 }], vec![Op::WaitFlag { flag: 0 }, del(1)]]));
     v.push(mk("burst: upsert b(w3);upsert b(w4);delete b;put b /queue1", 1, vec![put(2, 2)], vec![vec![upw(2, 3), upw(2, 4), del(2), put(2, 5)]]));
+    v.push(mk("delete a || put a /queue1", 1, vec![put(1, 2)], vec![vec![del(1)], vec![put(1, 3)]]));
+    v.push(mk("burst: upsert b(w3);upsert b(w2 = initial) /queue1", 1, vec![put(2, 2)], vec![vec![upw(2, 3), upw(2, 2)]]));
     v.push(mk("bursts: put a;put_ttl b || delete b;put c || get a /queue1", 1, vec![put(2, 2)], vec![vec![put(1, 2), put_ttl(2, 2, 5000)], vec![del(2), put(3, 2)], vec![get(1)]]));
     for (name, q, threads) in [
         ("bursts: put a;delete a;put a || put b;put a;delete b /queue1", 1usize, vec![vec![put(1, 2), del(1), put(1, 3)], vec![put(2, 2), put(1, 4), del(2)]]),
